@@ -61,12 +61,33 @@ func run(outlierPath bool) func(r vReq, handler func() error) vOut {
 	}
 }
 
+func instance(outlierPath bool) func(ext, fb bool) func(func() error) vOut {
+	return func(ext, fb bool) func(func() error) vOut {
+		var opts []Option
+		if ext {
+			opts = append(opts, WithResourceExtract(func(context.Context, interface{}) string { return "custom-kratos" }))
+		}
+		if fb {
+			opts = append(opts, WithBlockFallback(func(context.Context, interface{}, error) (interface{}, error) { return nil, errFallback }))
+		}
+		if outlierPath {
+			opts = append(opts, WithEnableOutlier(func(context.Context) bool { return true }))
+		}
+		mw := SentinelClientMiddleware(opts...)
+		return func(h func() error) vOut {
+			ctx := transport.NewClientContext(context.Background(), fakeTransport{})
+			_, err := mw(func(context.Context, interface{}) (interface{}, error) { return "resp", h() })(ctx, "req")
+			return vOut{Err: err}
+		}
+	}
+}
+
 func TestVerifKratosClient(t *testing.T) {
 	vRunDriver(t, vDriver{Name: "kratos.SentinelClientMiddleware", DefaultRes: "/verif.Svc/Op", CustomRes: "custom-kratos", HasFallback: true, TracesError: true, CanPanic: true,
-		Run: run(false), Rejected: rejected})
+		Run: run(false), Instance: instance(false), Rejected: rejected})
 }
 
 func TestVerifKratosClientOutlier(t *testing.T) {
 	vRunDriver(t, vDriver{Name: "kratos.SentinelClientMiddleware(outlier)", DefaultRes: "verif-svc", HasFallback: true, CanPanic: true,
-		Run: run(true), Rejected: rejected})
+		Run: run(true), Instance: instance(true), Rejected: rejected})
 }
